@@ -13,6 +13,7 @@ import hashlib
 import re
 from . import csrc
 from . import cfuns_skel
+from . import cfuns_guard
 from . import bytecode as gbc
 from .csrc import ExtractError
 
@@ -393,6 +394,16 @@ def extract_selection(tree, found):
     return paths
 
 
+def extract_guards(tree):
+    """specials.c janetc_if / janetc_while: EVERY conditional jump emitted for the condition (also the guard of the while loop that is
+    recompiled as a closure) and the predicate applied to a constant condition, per combination of stripped `(= nil x)` / `(not= nil x)`
+    heads - by symbolic execution of the canonical skeletons (tools/gen/cfuns_guard.py).  Lean: Props.C15.nil_guard_sites_ok,
+    nil_const_folds_ok and the same-branch theorems over these rows."""
+    sp = csrc.strip_comments(csrc.read(tree, "src/core/specials.c"))
+    ops = dict(gbc.extract(tree)[0])
+    return cfuns_guard.extract(sp, ops, cfuns_skel.skeleton)
+
+
 # ------------------------------------------------------------------------------------------------ apply / call site / remove_noops structure
 def extract_apply(tree, found):
     """structure of cfuns.c do_apply: the push loop (start, bound offset, stride, opcode), the two remainder cases, the push-array
@@ -555,6 +566,7 @@ def render(tree):
     funs = extract_corelib(tree, ops, found)
     reads, removable = extract_movopt(tree, ops, found)
     paths = extract_selection(tree, found)
+    gsites, gfolds = extract_guards(tree)
     ash = extract_apply(tree, found)
     branches, generic_ops = extract_callsite(tree, found)
     noop_table = extract_noops(tree, ops)
@@ -626,6 +638,23 @@ def render(tree):
     o.append("/-- `(= nil x)` / `(not= nil x)` conditions of `if` / `while` (specials.c `janetc_check_nil_form`): special form, tag name of the\n"
              "    head function, opcode of the jump that LEAVES the then-branch / the loop -/\nabbrev nilFastPaths : List (String × String × Op) := [")
     o.append(",\n".join('  ("%s", "%s", %s)' % (k[0], k[1], lname(v)) for k, v in sorted(paths.items())))
+    o.append("]\n")
+    lpath = lambda p: "[%s]" % ", ".join('"%s"' % x for x in p)
+    o.append("/-- one conditional jump that specials.c `janetc_if` / `janetc_while` emit for the condition (tools/gen/cfuns_guard.py: symbolic\n"
+             "    execution of the canonical skeleton, one row per emission site and per list of `(= nil x)` / `(not= nil x)` heads that\n"
+             "    `janetc_check_nil_form` stripped, outermost first): site `main` = the jump that leaves the then-branch / the loop (offset patched\n"
+             "    later), `iife` = guard of the while loop recompiled as a tail-recursive closure; `offset` = the literal offset argument;\n"
+             "    `nextOp` = opcode emitted right after it in the same block -/\n"
+             "structure GuardSite where\n  form : String\n  path : List String\n  site : String\n  op : Op\n  offset : Nat\n  nextOp : Option Op\n"
+             "  deriving DecidableEq, Repr, Inhabited\n")
+    o.append("abbrev nilGuardSites : List GuardSite := [")
+    o.append(",\n".join('  ⟨"%s", %s, "%s", %s, %d, %s⟩' % (f, lpath(p), st, lname(op), off, lopt(nx)) for f, p, st, op, off, nx in gsites))
+    o.append("]\n")
+    o.append("/-- constant condition of `if` / `while`: the predicate of the constant (`falsy` / `truthy` / `isNil` / `notNil`) under which the\n"
+             "    bodies of `if` are exchanged (`swap`) / the loop is not compiled at all (`never`), per list of stripped heads -/\n"
+             "structure ConstFold where\n  form : String\n  path : List String\n  pred : String\n  role : String\n  deriving DecidableEq, Repr, Inhabited\n")
+    o.append("abbrev nilConstFolds : List ConstFold := [")
+    o.append(",\n".join('  ⟨"%s", %s, "%s", "%s"⟩' % (f, lpath(p), pr, role) for f, p, pr, role in gfolds))
     o.append("]\n")
     o.append("/-- structure of cfuns.c `do_apply`: `for (i = loopStart; i < n - loopBound; i += loopStride) loopOp`, `if (i == n - rem2At) rem2Op else if\n"
              "    (i == n - rem1At) rem1Op`, `lastOp` on the last argument, `tailOp` / `callOp` on `args[0]` -/\nstructure ApplyShape where\n  loopStart : Nat\n  loopBound : Nat\n"
